@@ -33,8 +33,34 @@ _CMP = {"==": "=", "!=": "≠", ">=": "≥", "<=": "≤", "=": "=", ">": ">", "<
 def gen_case(ch: Chooser, tier: str = "quick") -> dict:
     from . import c01, c03, c04, c05, c06, geom
 
-    fam = ch.weighted([(3, "c01"), (2, "c03"), (2, "c05"), (2, "geom"), (1, "c04"), (2, "c06"), (1, "c02")])
-    if fam == "geom":
+    fam = ch.weighted([(3, "c01"), (2, "c03"), (2, "c05"), (2, "geom"), (1, "c04"), (2, "c06"), (1, "c02"),
+                       (5, "reuse"), (3, "example")])
+    src = None
+    if fam == "example":
+        # one of the repository's own example programs (read from the current tree)
+        import glob
+
+        files = sorted(f for f in glob.glob(os.path.join(seam.REPO, "example_programs", "*.facto"))
+                       if os.path.getsize(f) < 2500)
+        if files:
+            with open(ch.pick(files), encoding="utf-8") as fh:
+                src = fh.read()
+        else:
+            fam = "reuse"
+    if fam == "example":
+        sub = None
+    elif fam == "reuse":
+        from . import c10
+
+        for _ in range(20):
+            stmts, inputs, _thr = c10._repeated_subexpr_program(ch, min_triples=1)
+            try:
+                lang.Interp(stmts).run({i["name"]: i["init"] for i in inputs})
+                break
+            except lang.RefError:
+                continue
+        sub = {"stmts": stmts}
+    elif fam == "geom":
         sub = geom.gen_geom_case(ch, "quick", PROP, poles="never")
     elif fam == "c02":
         from . import c02
@@ -42,7 +68,8 @@ def gen_case(ch: Chooser, tier: str = "quick") -> dict:
         sub = c02.gen_case(ch, "quick")
     else:
         sub = {"c01": c01, "c03": c03, "c04": c04, "c05": c05, "c06": c06}[fam].gen_case(ch, "quick")
-    src = lang.pprogram(sub["stmts"])
+    if src is None:
+        src = lang.pprogram(sub["stmts"])
     n_inv = ch.rint(4, 6) if tier == "quick" else ch.rint(12, 24)
     invs = []
     # pairs (string, --json) of the same configuration, over sampled configurations
@@ -52,7 +79,7 @@ def gen_case(ch: Chooser, tier: str = "quick") -> dict:
             "entry": entry,
             "input": "file" if entry == "compile_py" else ch.pick(["file", "-i"]),
             "out": ch.pick(["stdout", "-o", "-o-newdir"]),
-            "no_opt": ch.chance(1, 3),
+            "no_opt": ch.chance(1, 4),
             "poles": ch.pick([None, None, "small", "medium", "big", "substation"]),
             "name": ch.pick([None, None, "My Circuit", "x"]),
         }
